@@ -40,6 +40,8 @@ Section Cache.
   | Mutate (f : D -> D)            (* create / delete / rename / edit metadata *)
   | Tick (dt : Z)                  (* the clock advances *)
   | List (p : P)                   (* a listing request through protocol p *)
+  | ListF (p : P) (k : nat)        (* a listing request whose cache write fails after k bytes (disk or quota full,
+                                      EFBIG, EIO): savecache swallows the IOError, the k-byte prefix stays on disk *)
   | Probe (p : P)                  (* a request for the directory that never reaches getdirlist():
                                       HTTP HEAD (prepare() runs, nothing is saved), Gopher+ `!` (no prepare()) *)
   | Damage (g : bytes).            (* the cache file is replaced by other bytes (crashed writer ...) *)
@@ -76,11 +78,24 @@ Section Cache.
     | Broken => if repaired then regenerate s p else (s, Some (Crashed p))
     end.
 
+  (* the same request when the write of the cache file fails after k bytes: open('wb') has truncated,
+     k bytes are on disk, the error is swallowed ("except IOError: pass"), the reply is unaffected *)
+  Definition regenerate_f (s : state) (p : P) (k : nat) : state * option reply :=
+    let l := gen (dir s) in
+    (mk (dir s) (Some (now s, firstn k (enc l))) (now s) (hist s), Some (Served p l false)).
+  Definition do_list_f (repaired : bool) (s : state) (p : P) (k : nat) : state * option reply :=
+    match loadcache s with
+    | Hit l => (s, Some (Served p l true))
+    | Miss => regenerate_f s p k
+    | Broken => if repaired then regenerate_f s p k else (s, Some (Crashed p))
+    end.
+
   Definition step (repaired : bool) (s : state) (o : op) : state * option reply :=
     match o with
     | Mutate f => let d := f (dir s) in (mk d (file s) (now s) ((now s, d) :: hist s), None)
     | Tick dt => (mk (dir s) (file s) (now s + dt) (hist s), None)
     | List p => do_list repaired s p
+    | ListF p k => do_list_f repaired s p k
     | Probe _ => (s, None)
     | Damage g => (mk (dir s) (Some (now s, g)) (now s) (hist s), None)
     end.
@@ -109,13 +124,14 @@ Section Cache.
     match o with
     | Tick dt => 0 <= dt
     | Damage g => decode g = None
+    | ListF _ k => forall l, decode (firstn k (enc l)) = None \/ firstn k (enc l) = enc l
     | _ => True
     end.
 End Cache.
 
 Arguments mk {D}. Arguments dir {D}. Arguments file {D}. Arguments now {D}. Arguments hist {D}.
 Arguments init {D}.
-Arguments Mutate {D P}. Arguments Tick {D P}. Arguments List {D P}. Arguments Probe {D P}. Arguments Damage {D P}.
+Arguments Mutate {D P}. Arguments Tick {D P}. Arguments List {D P}. Arguments Probe {D P}. Arguments ListF {D P}. Arguments Damage {D P}.
 Arguments Served {L P}. Arguments Crashed {L P}.
 Arguments Hit {L}. Arguments Miss {L}. Arguments Broken {L}.
 Arguments alive {D}.
@@ -136,4 +152,6 @@ Arguments do_list {D L P} gen enc decode life repaired s p.
 Arguments step {D L P} gen enc decode life repaired s o.
 Arguments stepacc {D L P} gen enc decode life repaired acc o.
 Arguments run {D L P} gen enc decode life repaired s ops.
-Arguments op_ok {D L P} decode o.
+Arguments op_ok {D L P} enc decode o.
+Arguments regenerate_f {D L P} gen enc s p k.
+Arguments do_list_f {D L P} gen enc decode life repaired s p k.
